@@ -29,8 +29,12 @@ use crate::w_iovec::panic_message;
 pub struct StreamWorld;
 
 pub const KINDS: &[&str] = &[
-    "rec", "delim", "garbage", "torn", "flip", "dup", "trunc", "ins", "del",
+    "rec", "delim", "garbage", "torn", "flip", "dup", "trunc", "ins", "del", "align",
 ];
+
+/// Block sizes (indices into BLOCKS) and distances an `align` operation can aim at.
+const ALIGN_BLOCKS: &[(u64, usize)] = &[(10, 4096), (9, 64), (8, 16), (10, 4096)];
+const ALIGN_BACK: &[usize] = &[253, 253, 254, 252, 255, 0, 1, 2, 3, 251];
 
 pub const BLOCKS: &[u64] = &[0, 1, 2, 3, 4, 5, 7, 8, 16, 64, 4096, u64::MAX];
 
@@ -115,6 +119,26 @@ fn build_log(plan: &Plan, stats: &mut Stats) -> Vec<u8> {
                 for _ in 0..(a[0] % 4) {
                     log.extend_from_slice(&[0xFE, 0xFD]);
                 }
+            }
+            "align" => {
+                // Pads with delimiters (and one empty record when the distance is
+                // odd) until the log ends `back` bytes before a multiple of the I/O
+                // block size: what follows ends on, or straddles, a block boundary
+                // at a chosen place (253 = a maximal first chunk ends the block).
+                let b = ALIGN_BLOCKS[(a[0] as usize) % ALIGN_BLOCKS.len()].1;
+                let back = ALIGN_BACK[(a[1] as usize) % ALIGN_BACK.len()] % b;
+                let mut d = (2 * b - back - log.len() % b) % b;
+                if d % 2 == 1 && d < 5 {
+                    d += b;
+                }
+                if d % 2 == 1 {
+                    log.extend_from_slice(&[0xFE, 0xFD, 0x00, 0xFE, 0xFD]);
+                    d -= 5;
+                }
+                for _ in 0..d / 2 {
+                    log.extend_from_slice(&[0xFE, 0xFD]);
+                }
+                stats.bump("op.align");
             }
             "garbage" => {
                 let n = (a[1] % 300) as usize;
@@ -586,8 +610,16 @@ impl World for StreamWorld {
         }
         let mut ops = Vec::new();
         let nrec = rng.range(0, if ask.tiny { 3 } else { 7 });
-        let small = ask.tiny || rng.chance(3, 4);
-        let class = *rng.pick(&[0u64, 0, 1, 2, 3]);
+        // Aimed logs: records placed so that a chunk (or its header) ends exactly
+        // on an I/O block boundary of a reader that starts from a fresh arena.
+        let aimed = !ask.tiny && rng.chance(1, 6);
+        let aim = rng.below(ALIGN_BLOCKS.len() as u64);
+        if aimed {
+            knobs.insert("block".into(), ALIGN_BLOCKS[aim as usize].0);
+            knobs.insert("arena_prep".into(), if rng.chance(3, 4) { 0 } else { rng.below(64) });
+        }
+        let small = !aimed && (ask.tiny || rng.chance(3, 4));
+        let class = if aimed { *rng.pick(&[0u64, 4, 3]) } else { *rng.pick(&[0u64, 0, 1, 2, 3]) };
         let (roff, rlen) = region(class);
         if rng.chance(1, 3) {
             ops.push(Op::new("delim", [rng.range(1, 3), 0, 0, 0]));
@@ -597,6 +629,9 @@ impl World for StreamWorld {
             let len = if small { rng.boundary_size(&[0, 1, 2, 3], 12) } else { rng.boundary_size(&[0, 1, 251, 252, 253, 300], 600) };
             let len = if !ask.tiny && rng.chance(1, 40) { rng.range(64_000, 66_000) } else { len };
             let off = roff as u64 + rng.below((rlen as u64).saturating_sub(70_000).max(1));
+            if aimed && rng.chance(1, 2) {
+                ops.push(Op::new("align", [aim, rng.below(ALIGN_BACK.len() as u64), 0, 0]));
+            }
             if r < 6 {
                 ops.push(Op::new("rec", [len, off, rng.below(4), 0]));
             } else if r < 8 {
